@@ -136,8 +136,19 @@ def is_len_term(t):
     return is_call(_strip_casts(t), "common::headers::Headers::content_length")
 
 
+def lim_field(t):
+    """The limit field behind a limit operand (the field itself, or the Option field under unwrap_or(default))."""
+    x = _strip_casts(t)
+    if x[0] == "call" and last_seg(x[1]) == "unwrap_or" and "Option" in x[1] and len(x[2]) == 2 and const_of(x[2][1]) is not None:
+        x = _strip_casts(look(x[2][0]))
+    return x
+
+
 def is_lim_term(t):
     x = _strip_casts(t)
+    if x[0] == "call" and last_seg(x[1]) == "unwrap_or" and "Option" in x[1] and len(x[2]) == 2 and const_of(x[2][1]) is not None:
+        # the limit kept as Option<usize>, None standing for a constant default (the setter must then store Some(argument): R04.4)
+        x = _strip_casts(look(x[2][0]))
     return x[0] == "field" and x[3] == "payload_max_size"
 
 
